@@ -710,7 +710,7 @@ def c10(ck):
     extra = []
     extra += clone_ep(None, lambda o: o[-1]["obs"]["verifies"].__setitem__("rsa4096", not o[-1]["obs"]["verifies"]["rsa4096"]))
     extra += clone_ep(None, lambda o: o[-1]["obs"].__setitem__("payload_same", False))
-    extra += clone_ep(None, lambda o: o[-1]["obs"].__setitem__("signed_by", "err") if o[-1]["op"] == "sign" else o[-1]["obs"].__setitem__("digests_ok", False))
+    extra += clone_ep(None, lambda o: o[-1]["obs"].__setitem__("signed_by", "none-reported") if o[-1]["op"] == "sign" else o[-1]["obs"].__setitem__("digests_ok", False))
     events = extra + events
     write_ndjson(tr, events)
     v = vlib.validate_trace("Trace_C10", "Trace_C10.cfg", ck.scratch, tr, shards=8)
